@@ -184,7 +184,7 @@ func main() {
 			g.Explicit = i%12 == 1
 			t := g.RandType(1 + rng.Intn(3))
 			p := topParams[rng.Intn(len(topParams))]
-			if p == "set" && g.NoSet[t] {
+			if p == "set" && g.OrderDependent(t) {
 				p = ""
 			}
 			if berlib.Classify(t) == berlib.KString && !strings.Contains(p, "utf8") && !strings.Contains(p, "ia5") {
